@@ -578,6 +578,12 @@ func cases(tier, path string) {
 		}
 		w.encContainer(&c)
 	}
+	// gzip_packed: registered constructor with a hand-written Marshaler
+	{
+		r := marshal(&objects.GzipPacked{Obj: &tl.PseudoTrue{}})
+		w.stat["E:gzip-marshal"]++
+		w.out.Line("G", w.id(), r.class, r.String())
+	}
 	// every enum member through the unknown-object entry (bare id on the wire)
 	for _, e := range u.Enums {
 		for _, m := range e.Members {
